@@ -36,19 +36,19 @@ class _Out(object):
         if n:
             self.mark(b"\x00" * n, "padding", 1, path)
 
-    def mark(self, data, kind, width, path):
+    def mark(self, data, kind, width, path, info=None):
         if not data:
             return
         s = len(self.buf)
         self.buf += data
-        self.map.append((s, s + len(data), kind, width, path))
+        self.map.append((s, s + len(data), kind, width, path, info))
 
 
 def _enc_value(out, t, v, path):
     if t.cat == "scalar":
         out.mark(enc_scalar(t, v, out.e), "scalar", t.size, path)
     elif t.cat == "enum":
-        out.mark(enc_scalar(t, v, out.e), "enum", 4, path)
+        out.mark(enc_scalar(t, v, out.e), "enum", 4, path, {"known": sorted(t.by_value)})
     elif t.cat == "struct":
         _enc_struct(out, t, v, path)
     elif t.cat == "union":
@@ -60,7 +60,8 @@ def _enc_value(out, t, v, path):
 def _enc_union(out, t, v, path):
     start = len(out.buf)
     name, at, disc = t.by_name[v["@arm"]]
-    out.mark(int(disc).to_bytes(4, "little" if out.e == "<" else "big"), "discriminator", 4, path)
+    out.mark(int(disc).to_bytes(4, "little" if out.e == "<" else "big"), "discriminator", 4, path,
+             {"known": sorted(t.by_disc)})
     n = t.align - 4
     if n:
         out.mark(b"\x00" * n, "padding", 1, path + "/discpad")
@@ -101,7 +102,8 @@ def _enc_struct(out, t, v, path):
                 raise RefuseEncode(p)
             out.mark(_count_bytes(m.type, lens.pop(), out.e, p), "sizer", m.type.size, p)
         elif w == "counter":
-            out.mark(len(v[m.name]).to_bytes(4, "little" if out.e == "<" else "big"), "counter", 4, p)
+            out.mark(len(v[m.name]).to_bytes(4, "little" if out.e == "<" else "big"), "counter", 4, p,
+                     {"limit": m.n if m.arr == "limited" else None})
         elif w == "elems":
             _enc_elems(out, m, v[m.name], p)
         elif w == "fixedarr":
@@ -166,7 +168,7 @@ def _has_greedy(t):
 def check_map(data, m):
     """the map tiles the encoding exactly"""
     pos = 0
-    for s, e, kind, width, path in m:
+    for s, e, kind, width, path, _info in m:
         assert s == pos and e > s, (s, pos, kind, path)
         if kind in ("scalar", "enum", "flag", "discriminator", "counter", "sizer"):
             assert e - s == width
@@ -178,7 +180,7 @@ def compare_orders(le, be, m):
     """C19's relation between the two byte orders, given the map. -> None | (start, end, kind, path)"""
     if len(le) != len(be):
         return (0, 0, "length", "")
-    for s, e, kind, width, path in m:
+    for s, e, kind, width, path, _info in m:
         if kind == "padding":
             if any(le[s:e]) or any(be[s:e]):
                 return (s, e, kind, path)
